@@ -632,6 +632,16 @@ func veVisible(readers []*index.Reader) (map[uint64]*index.Stream, error) {
 	return out, nil
 }
 
+// veConvFails: harness/convbin answers a stream with "x5" in its payload with a line that is no chunk.
+func veConvFails(data []index.Data) bool {
+	for _, d := range data {
+		if bytes.Contains(d.Content, []byte("x5")) {
+			return true
+		}
+	}
+	return false
+}
+
 // veConvExpected is the converter function of harness/convbin applied to the stream's current chunks.
 func veConvExpected(name string, data []index.Data) []vq.Run {
 	var out []index.Data
